@@ -250,6 +250,11 @@ def run_cases(mod, tier, seed, shard=None, replay=None, case_timeout=300):
     # `import abtem` would leave half-initialised modules behind and poison every later case
     import abtem  # noqa: F401
     import abtem.bloch  # noqa: F401
+    try:
+        # no progress bars in check output (diagnostics only; no property depends on it)
+        abtem.config.set({"diagnostics.progress_bar": False})
+    except Exception:
+        pass
     t0 = time.time()
     timed_out_cases = 0
     aborted = False
@@ -258,7 +263,7 @@ def run_cases(mod, tier, seed, shard=None, replay=None, case_timeout=300):
     signal.signal(signal.SIGALRM, _alarm)
 
     def one(case):
-        nonlocal timed_out_cases
+        nonlocal timed_out_cases, aborted
         ctx._begin(case)
         signal.alarm(case_timeout)
         try:
@@ -272,10 +277,14 @@ def run_cases(mod, tier, seed, shard=None, replay=None, case_timeout=300):
             ctx.errors["case-timeout"] += 1
             aborted = True
         except Exception as e:
-            # an exception escaping the workload inside the property's domain is a violation
-            ctx.clauses["no-unexpected-exception"] += 0
-            ctx.violation("unexpected-exception", error=repr(e)[:500],
-                          tb=traceback.format_exc()[-1500:])
+            if type(e).__name__ == "HookMissing":
+                # a monitor could not be attached (observation point renamed/removed): inconclusive
+                ctx.errors["hook-missing:" + str(e)[:80]] += 1
+            else:
+                # an exception escaping the workload inside the property's domain is a violation
+                ctx.clauses["no-unexpected-exception"] += 0
+                ctx.violation("unexpected-exception", error=repr(e)[:500],
+                              tb=traceback.format_exc()[-1500:])
         finally:
             signal.alarm(0)
         ctx._end()
@@ -420,6 +429,9 @@ def main(argv=None):
         # the evidence) as long as every required clause was still evaluated by the other cases / shards
         if res["timed_out_cases"] > max(2, res["evaluations"] // 10):
             inconclusive.append("%d cases hit the watchdog" % res["timed_out_cases"])
+    hook_missing = sorted(k for k in res["errors"] if k.startswith("hook-missing"))
+    if hook_missing:
+        inconclusive.append("monitors could not be attached: " + ", ".join(hook_missing))
     min_nt = 2
     if not a.replay and len(res["nontrivial"]) < min_nt:
         inconclusive.append("fewer than %d distinct non-trivial cases" % min_nt)
